@@ -9,7 +9,7 @@ from hypothesis import strategies as st
 from aiomysensors.exceptions import InvalidMessageError
 from aiomysensors.model.message import Message
 
-from vf import env, gen
+from vf import drive, env, gen
 from vf.codec_ref import INTERNAL_MAX, plain_int, ref_format, ref_protocol
 from vf.runner import Outcome, fail
 
@@ -63,6 +63,8 @@ def strategy(tier: str):
 
 
 def enumerate_cases(tier: str):
+    # one event of every kind under every environment dimension (transport kind, logging, warnings, a bystander gateway, registry file, ...)
+    yield from drive.env_sweep_cases()
     for version in ("2.0", "2.2"):
         for parked in (1, 2):
             for senders in ([[0, True]], [[0, True], [0, True]], [[1, True], [3, True]], [[0, False], [0, True]]):
@@ -360,6 +362,8 @@ def _run_hist(case: dict) -> Outcome:
 
 
 def run_case(case: dict) -> Outcome:
+    if case.get("kind") == "envsweep":
+        return drive.run_env_case(case, frozenset({"sendwrites", "flush", "writes", "leak"}))
     if case["kind"] == "nonmsg":
         return _run_nonmsg(case)
     if case["kind"] == "race":
